@@ -77,12 +77,18 @@ func vC31Heavy(t *testing.T, f *verifFeed, w *verifgen.Wallet, nTx, ins, keys in
 		}(i)
 	}
 	wg.Wait()
-	for i := 0; i < nTx; i += 20 {
+	// a snapshot whose write exceeds the database transaction limit cannot be finalized (C16's recorded finding):
+	// keep the funding snapshots well below it (about 100k entries)
+	step := 20
+	if per := ins * keys; per*step > 48000 {
+		step = max(1, 48000/per)
+	}
+	for i := 0; i < nTx; i += step {
 		var batch []*common.VersionedTransaction
-		for j := i; j < nTx && j < i+20; j++ {
+		for j := i; j < nTx && j < i+step; j++ {
 			batch = append(batch, splits[j])
 		}
-		if _, d := f.feedBatch(f.net.NodeIds[1+(i/20)%6], batch, f.tick(uint64(2*time.Second))); !d.Finalized {
+		if _, d := f.feedBatch(f.net.NodeIds[1+(i/step)%6], batch, f.tick(uint64(2*time.Second))); !d.Finalized {
 			t.Fatalf("wide outputs not finalized: %v %v", d.Err, d.PanicVal)
 		}
 	}
